@@ -10,10 +10,12 @@ Open Scope N_scope.
 Lemma list_sum_perm l l' : Permutation l l' -> list_sum l = list_sum l'.
 Proof. induction 1; simpl; lia. Qed.
 
-Lemma items_text_len sf sn (xs : list bytes) : forall s1,
+Lemma items_text_len (sn : bytes) (xs : list bytes) : forall s1,
   (list_sum (map (@length N) xs) <= length (items_text s1 sn xs))%nat.
 Proof.
-  induction xs as [|x xs IH]; intros s1; cbn [map list_sum items_text]; [lia|].
+  induction xs as [|x xs IH]; intros s1; [simpl; lia|].
+  cbn [map items_text]. change (list_sum (length x :: map (@length N) xs))
+    with (length x + list_sum (map (@length N) xs))%nat.
   rewrite !app_length. specialize (IH sn). unfold bytes in *. lia.
 Qed.
 
@@ -23,10 +25,12 @@ Lemma depth_sum {A} (d L : A -> nat) (l : list A) :
   (length l + list_max (map d l) <= 1 + 2 * list_sum (map L l))%nat
   /\ (length l <= list_sum (map L l))%nat.
 Proof.
-  induction l as [|a l IH]; intros H; cbn [length map list_max list_sum]; [lia|].
+  induction l as [|a l IH]; intros H; [simpl; lia|].
   destruct (H a (or_introl eq_refl)) as [H1 H2].
   destruct IH as [I1 I2]; [intros b Hb; apply H; right; exact Hb|].
-  change (fold_right Nat.max 0%nat (map d l)) with (list_max (map d l)). lia.
+  cbn [length map].
+  change (list_max (d a :: map d l)) with (Nat.max (d a) (list_max (map d l))).
+  change (list_sum (L a :: map L l)) with (L a + list_sum (map L l))%nat. lia.
 Qed.
 
 Section Fuel.
@@ -51,14 +55,14 @@ Proof.
     change (repr e1 (ind + 1) :: map (fun e => repr e (ind + 1)) l')
       with (map (fun e => repr e (ind + 1)) (e1 :: l')).
     cbn [length]. rewrite !app_length.
-    pose proof (items_text_len (sep_first ind) (sep_next ind)
+    pose proof (items_text_len (sep_next ind)
                   (map (fun e => repr e (ind + 1)) (e1 :: l')) (sep_first ind)) as LL.
     rewrite map_map in LL.
     destruct (depth_sum rdepth (fun e => length (repr e (ind + 1))) (e1 :: l')) as [D1 _].
     { intros a Ha. cbn [okv] in Hok. rewrite forallb_forall in Hok. specialize (Hok a Ha). split.
       - apply IH; [apply (vsize_list_in sub _ a Ha)|exact Hok].
       - pose proof (repr_ne is_print fmtF fmtE rk a (ind + 1)%Z Hok). destruct (repr a (ind + 1)); [congruence|cbn [length]; lia]. }
-    unfold bytes in *. cbn [length] in *. lia.
+    unfold bytes in *. cbn [length map] in *. lia.
   - (* map *)
     cbn [rdepth C04.repr].
     set (dec := fun e : value * value => (fst e, (repr (fst e) (ind + 1), repr (snd e) (ind + 2)))).
@@ -85,14 +89,18 @@ Proof.
       rewrite lb_string_items by discriminate.
       change (pair_text is_print fmtF fmtE rk ind a :: map (pair_text is_print fmtF fmtE rk ind) sm')
         with (map (pair_text is_print fmtF fmtE rk ind) (a :: sm')).
-      pose proof (items_text_len (sep_first ind) (sep_next ind)
+      pose proof (items_text_len (sep_next ind)
                     (map (pair_text is_print fmtF fmtE rk ind) (a :: sm')) (sep_first ind)) as LL.
       rewrite map_map in LL. fold L in LL.
       assert (Lm : length m = length (a :: sm')) by (apply Permutation_length, Pm).
-      match goal with |- context [if ?c then _ else _] => destruct c end.
-      * (* cannot happen, but the bound holds anyway for the three bytes *)
-        exfalso. clear - LL. cbn [map list_sum] in LL. unfold L at 1, pair_text, mb_pair in LL. cbn [length] in LL. lia.
-      * cbn [length]. rewrite !app_length. unfold bytes in *. cbn [length] in *. lia.
+      match goal with |- context [if ?c then _ else _] => destruct c eqn:B end.
+      * exfalso. apply bytes_eqb_spec in B. unfold sEmptyList in B.
+        apply (f_equal (@length N)) in B. cbn [length] in B. rewrite !app_length in B. cbn [length] in B.
+        cbn [map] in LL.
+        change (list_sum (L a :: map L sm')) with (L a + list_sum (map L sm'))%nat in LL.
+        assert (1 <= L a)%nat by (unfold L, pair_text, mb_pair; cbn [length]; lia).
+        unfold bytes in *. cbn [map] in *. lia.
+      * cbn [length]. rewrite !app_length. unfold bytes in *. cbn [length map] in *. lia.
 Qed.
 End Fuel.
 
